@@ -120,7 +120,7 @@ EDIT_OPS = ["modify_same", "modify_size", "touch", "chmod", "delete", "delete_di
             "to_symlink", "to_file", "to_dir", "rename"]
 INDEX_OPS = ["add_all", "add", "stage", "unstage", "rm_cached", "commit", "reset_mixed", "reset_hard"]
 OPS_WEIGHTED = (
-    ["modify_same"] * 3 + ["modify_size"] * 3 + ["touch"] + ["chmod"] * 2 + ["delete"] * 3 + ["delete_dir"] + ["add_file"] * 3
+    ["modify_same"] * 3 + ["modify_size"] * 3 + ["touch"] + ["chmod"] * 5 + ["delete"] * 3 + ["delete_dir"] + ["add_file"] * 3
     + ["add_link"] + ["add_dir"] * 2 + ["to_symlink"] * 3 + ["to_file"] * 3 + ["to_dir"] * 3 + ["rename"] * 2
     + ["add_all"] * 3 + ["add"] * 3 + ["stage"] * 4 + ["unstage"] * 3 + ["rm_cached"] * 3 + ["commit"] * 2 + ["reset_mixed"]
     + ["reset_hard"] * 2 + ["checkout"] * 8
@@ -733,8 +733,9 @@ class Runner:
             with open(full, "wb") as f:
                 f.write(data)
         elif name == "chmod":
-            _, p, exe = op
-            os.chmod(self.full(p), 0o755 if exe else 0o644)
+            _, p, exe = op[:3]
+            # optional 4th element: the exact permission bits (git looks at the owner's x bit only: 0o654 is not executable)
+            os.chmod(self.full(p), op[3] if len(op) > 3 else (0o755 if exe else 0o644))
         elif name == "delete":
             self._remove_any(self.full(op[1]))
         elif name == "symlink":
@@ -1150,7 +1151,12 @@ def resolve(run: Runner, aop, universe, names):
     elif name == "chmod":
         p = pick(regs, s1)
         if p is not None:
-            cop, hit = ("chmod", p, W[p][0] != EXE), p
+            exe = W[p][0] != EXE
+            if s2 % 2 == 0:
+                # same executable state for git, other permission bits (group/other x set while the owner's is clear, ...)
+                exe = not exe
+            perm = ([0o755, 0o700, 0o744, 0o751, 0o711] if exe else [0o644, 0o654, 0o655, 0o611, 0o645, 0o600, 0o666])[(s2 // 2) % (5 if exe else 7)]
+            cop, hit = ("chmod", p, exe, perm), p
     elif name == "delete":
         p = pick(files, s1)
         if p is not None:
